@@ -56,4 +56,15 @@ theorem C10_multi_full_false :
     ((E.eventLoop 1 (E.evalEvents 0) (E.evalEvents 1) [0, 1] s).te.reverse.map (fun x => decide (x < 32/100)))
       = [false, true] := by decide +kernel
 
+/-- the full-strength completeness statement also fails on the model of the current code for a crossing that lies within
+`event_duration` after the start of the step (recorded finding D22): a terminal component crossing at 10⁻⁹ inside the step
+[0, 1], `event_duration = 10⁻⁸`: nothing is reported and the run is not stopped -/
+theorem C10_near_start_full_false :
+    let E : RodasEnv ℚ := { O := ratO, spacing := fun _ => 0, uround := 0, tiny := 0, half := 1/2, c128 := 128,
+                            tspan := [0, 1], opt := ⟨1/5, 6, 6, none, none, false, 1/100000000⟩,
+                            events := [⟨1/1000000000, 0, true⟩] }
+    let s : RodasState ℚ := { E.init with t := 1, told := 0 }
+    (E.eventLoop 1 (E.evalEvents 0) (E.evalEvents 1) [0] s).te = [] ∧ (E.eventLoop 1 (E.evalEvents 0) (E.evalEvents 1) [0] s).stop = false := by
+  decide +kernel
+
 end Solverz
